@@ -23,7 +23,14 @@ func VH_C08_gate() {
 			author.keys = append(author.keys, &identity.Key{})
 		}
 	}
-	rec := vhNewPack([]Operation{vhNewOp(0, author)}, author)
+	// a pack with an operation, or an empty one (what a merge commit holds): both are
+	// statements made in the author's name and fall under the signature rule
+	ops := []Operation{vhNewOp(0, author)}
+	if rt.Choose(2) == 1 {
+		ops = nil
+		rt.Cover("empty-pack")
+	}
+	rec := vhNewPack(ops, author)
 	blob := r.AddBlob([]byte(rec.token))
 	empty := r.AddBlob([]byte{})
 	edit := rt.NondetUint64()
